@@ -13,6 +13,7 @@ CONSTANTS N = 3
   G_WALKDEPTH = TRUE
   G_FILTERTOP = TRUE
   FSTREAM = FALSE
+  G_NAVACC = TRUE
 INVARIANTS NoOverflow WorkBounded ChainBounded
 PROPERTY Termination
 CHECK_DEADLOCK FALSE
